@@ -88,7 +88,14 @@ pub enum GlideOp {
     /// run for the settle time of the setting in effect (capped by the budget)
     RunSettle,
     /// n times: set_time(a), one sample, set_time(b), one sample (many honoured / ignored calls in a row)
-    TimeBurst { a: f32, b: f32, n: u16 },
+    TimeBurst {
+        a: f32,
+        b: f32,
+        n: u16,
+        /// true: the calls follow each other with no sample processed in between (one sample after the whole burst)
+        #[serde(default)]
+        idle: bool,
+    },
 }
 
 #[derive(Debug, Clone, Serialize, Deserialize, PartialEq)]
@@ -142,11 +149,18 @@ fn run_c13_with(case: &GlideCase, budget: u64, stats: &mut Stats, robust: bool) 
 
     let mut expanded: Vec<GlideOp> = Vec::with_capacity(case.ops.len());
     for op in &case.ops {
-        if let GlideOp::TimeBurst { a, b, n } = op {
+        if let GlideOp::TimeBurst { a, b, n, idle } = op {
             for _ in 0..*n {
                 expanded.push(GlideOp::SetTime(*a));
-                expanded.push(GlideOp::Run(1));
+                if !*idle {
+                    expanded.push(GlideOp::Run(1));
+                }
                 expanded.push(GlideOp::SetTime(*b));
+                if !*idle {
+                    expanded.push(GlideOp::Run(1));
+                }
+            }
+            if *idle {
                 expanded.push(GlideOp::Run(1));
             }
         } else {
@@ -311,11 +325,18 @@ pub fn run_plain(case: &GlideCase, budget: u64) -> u64 {
             GlideOp::InputCurrent => x = y,
             GlideOp::Run(k) => run = *k as u64,
             GlideOp::RunSettle => run = 2000,
-            GlideOp::TimeBurst { a, b, n: k } => {
+            GlideOp::TimeBurst { a, b, n: k, idle } => {
                 for _ in 0..*k {
                     g.set_time(*a);
-                    g.process(x);
+                    if !*idle {
+                        g.process(x);
+                    }
                     g.set_time(*b);
+                    if !*idle {
+                        y = g.process(x);
+                    }
+                }
+                if *idle {
                     y = g.process(x);
                 }
             }
